@@ -377,9 +377,9 @@ func (w *seqWorld) exec(c *seqCmd) {
 			}
 			until = until.Add(4 * time.Second)
 		}
-		for k := 0; k < 4000 && in.main != nil && !w.sched.isFinished(in.main); k++ {
+		for k := 0; (k < 4000 || !until.IsZero()) && in.main != nil && !w.sched.isFinished(in.main); k++ {
 			if !until.IsZero() && time.Now().After(until) {
-				break
+				break // only the clock ends the wait for a read-only stop: never a count of granted operations
 			}
 			ops := w.sched.pendingOf(in.main)
 			if len(ops) == 0 {
@@ -389,7 +389,7 @@ func (w *seqWorld) exec(c *seqCmd) {
 			}
 			w.grantOp(in, ops[0], outOK)
 		}
-		if in.main != nil && !w.sched.isFinished(in.main) && !until.IsZero() {
+		if in.main != nil && !w.sched.isFinished(in.main) && !until.IsZero() && time.Now().After(until) {
 			w.orc.fail("C17", "sunset-not-stopped", "instance %d: the read-only date passed %v ago and RunSequencer is still running (it keeps sequencing and signing checkpoints)",
 				in.id, time.Since(in.cfg.NotAfterLimit.Add(ctlog.ReadOnlyAfter)).Round(time.Millisecond))
 			if in.runseqCancel != nil {
